@@ -22,7 +22,7 @@ import numpy as np
 from rv import gen
 
 PLAN = {
-    "quick": {"cases": 4500, "hashseeds": 3, "shards": 5, "timeout": 900, "min_nontrivial": 2000},
+    "quick": {"cases": 6000, "hashseeds": 3, "shards": 5, "timeout": 900, "min_nontrivial": 2500},
     "thorough": {"cases": 30000, "hashseeds": 8, "shards": 2, "timeout": 3600, "min_nontrivial": 12000},
 }
 RULE = ("case kinds drawn per index: 'lgbn' (random DAG, 1-6 nodes [thorough 1-8], templates ER/chain/collider/"
